@@ -70,6 +70,9 @@ M += [
  ('c13_circuit_hash_absorbs_width_chunks', [('plonky2/src/hash/hashing.rs', '        for input_chunk in inputs.chunks(H::AlgebraicPermutation::RATE) {', '        for input_chunk in inputs.chunks(H::AlgebraicPermutation::WIDTH) {')], ['C13'], 'R13.'),
  ('c13_squeeze_exposes_capacity', [('plonky2/src/hash/poseidon.rs', '        &self.state[..Self::RATE]', '        &self.state[..Self::WIDTH]')], ['C13'], 'R13.3'),
  ('c13_compress_second_input_misplaced', [('plonky2/src/hash/hashing.rs', '    perm.set_from_slice(&y.elements, NUM_HASH_OUT_ELTS);', '    perm.set_from_slice(&y.elements, NUM_HASH_OUT_ELTS + 1);')], ['C13'], 'R13.4'),
+ ('c13_u160_carry_flag_dropped', [('plonky2/src/hash/poseidon.rs', '    let (res_lo, over) = x_lo.overflowing_add(y);\n    let res_hi = x_hi + (over as u32);', '    let (res_lo, _) = x_lo.overflowing_add(y);\n    let res_hi = x_hi;')], ['C13'], 'R13.9'),
+ ('c14_reduce_borrow_flag_dropped', [('field/src/goldilocks_field.rs', '    let (mut t0, borrow) = x_lo.overflowing_sub(x_hi_hi);', '    let (mut t0, _) = x_lo.overflowing_sub(x_hi_hi);\n    let borrow = false;')], ['C14'], 'R14.6'),
+ ('bp_c13_bounded_wrapping_add', [('plonky2/src/hash/poseidon.rs', '        let s0 = state[0].to_noncanonical_u64() as u128;\n        let mds0to0', '        let s0 = (state[0].to_noncanonical_u64() as u128).wrapping_add(0u128);\n        let mds0to0')], ['C13'], None),
  ('c13_challenger_absorbs_late', [('plonky2/src/iop/challenger.rs', '        if self.input_buffer.len() == H::Permutation::RATE {\n            self.duplexing();\n        }', '        if self.input_buffer.len() == H::Permutation::WIDTH {\n            self.duplexing();\n        }')], ['C13'], 'R13.2'),
 ]
 BEHAVIOUR_PRESERVING += [
